@@ -289,16 +289,30 @@ def run (sch : Schema) (inj : Option Inj) : Prog → St → St × Option Err
 
 /-- a value handed to the ORM: fails validation, or converts to a database value -/
 inductive In
+  /-- `from_python` rejects the value (Invalid) -/
   | bad
+  /-- `from_python` accepts it (database value `v`) but `to_python` rejects that value: an
+      asymmetric validator pair (an int beyond the range of a quantized DecimalStringCol, a user
+      validator that only checks on the way back) -/
+  | bad2 (v : Val)
   | ok (v : Val)
   deriving DecidableEq, Repr
 
-def In.isOk : In → Bool
-  | .ok _ => true
+/-- step 1 of a column's validation: `from_python` -/
+def In.fromOk : In → Bool
   | .bad => false
+  | _ => true
+
+/-- step 2: `to_python` of the converted value -/
+def In.toOk : In → Bool
+  | .bad2 _ => false
+  | _ => true
+
+def In.isOk (v : In) : Bool := v.fromOk && v.toOk
 
 def In.val : In → Val
   | .ok v => v
+  | .bad2 v => v
   | .bad => none
 
 /-- a keyword of `set()` that is not a column -/
@@ -310,8 +324,9 @@ inductive Extra
   | fk (col : Nat) (v : Val)
   deriving DecidableEq, Repr
 
+/-- per column, in keyword order: `from_python`, then `to_python` — both before any statement -/
 def validates (kw : List (Nat × In)) (k : Prog) : Prog :=
-  kw.foldr (fun a acc => .validate a.2.isOk acc) k
+  kw.foldr (fun a acc => .validate a.2.fromOk (.validate a.2.toOk acc)) k
 
 /-- `setattr(self, name, value)` for one already converted column value (`_SO_setValue`) -/
 def attrProg (sch : Schema) (c id col : Nat) (v : Val) (k : Prog) : Prog :=
